@@ -1,4 +1,4 @@
-import SciVerif.Drive.C11
+import SciVerif.Drive.C11b
 open Lean SciVerif.Drive
 
-def main : IO Unit := serve SciVerif.C11.Drive.handle
+def main : IO Unit := serve SciVerif.C11.Drive.handleAll
